@@ -111,6 +111,10 @@ def st_mut_q(ctx, fr, s, acc):
             if how == 'outer' and res:
                 res.pop()
                 done = True
+            elif how == 'outer_append':
+                # grow the OUTER list (also when the walk result is empty: a missing path, a regular file)
+                res.append(('MUT', ['MUT'], []))
+                done = True
             else:
                 for d, sd, sf in res:
                     target = sd if how in ('prune', 'remove') else sf
